@@ -1,0 +1,30 @@
+//go:build verif
+
+package x509
+
+// Contracts checked by /verif/gvc (s-expression syntax, see /verif/DESIGN.md).
+// This file contains comments only.
+
+// BER reader (ber.go).  readObject accepts every byte string and every offset: it returns an error, or an object and
+// an end offset that lies beyond the start offset and inside the input - which is what makes the loop over the
+// sub-objects (and the recursion) consume input.  The length loop keeps length below 256^i, so the end of the
+// content never wraps.
+//@ (func readObject noframe
+//@   (ensures progress (=> (isnil result.2) (and (not (isnil result.0)) (bvsgt result.1 offset) (bvsle result.1 (len ber)))))
+//@   (ensures failed (=> (not (isnil result.2)) (isnil result.0)))
+//@   (loop 1
+//@     (invariant range (and (bvsle 0 offset0) (bvslt offset0 offset) (bvsle offset (len ber))))
+//@     (decreases (bvsub (len ber) offset)))
+//@   (loop 2
+//@     (invariant range (and (bvsle 0 i) (bvsle i numberOfBytes) (bvsle numberOfBytes 4) (bvsle 0 offset0) (bvslt offset0 offset) (bvsle offset (len ber))
+//@                           (= offset (bvadd offset@pre i)) (bvsle (bvadd offset@pre numberOfBytes) (len ber))))
+//@     (invariant size (and (bvsle 0 length) (bvslt length (bvshl 1 (bvmul 8 i)))))
+//@     (invariant first (=> (bvsge i 1) (=> (= numberOfBytes 4) (bvslt length (bvshl 1 (bvsub (bvmul 8 i) 1))))))
+//@     (decreases (bvsub numberOfBytes i)))
+//@   (loop 3
+//@     (invariant range (and (bvsle 0 offset0) (bvslt offset0 offset) (bvsle offset (len ber))))
+//@     (decreases (bvsub (len ber) offset))))
+//@ (func isIndefiniteTermination
+//@   (requires inside (and (bvsle 0 offset) (bvsle offset (len ber))))
+//@   (ensures room (=> (isnil result.1) (bvsle (bvadd offset 2) (len ber)))))
+//@ (func ber2der sweep)
